@@ -219,6 +219,15 @@ def _store_array(
                 )
                 warn(warn_msg, stacklevel=2)
                 source = source.rechunk(target.shards)
+            elif (
+                not sharding_enabled
+                and is_storage_array(target)
+                and source.ndim > 0
+                and tuple(target.chunks) != tuple(source.chunksize)
+            ):
+                # each task writes one source chunk, so source chunks must line up with the
+                # target's chunks or concurrent tasks would read-modify-write the same target chunk
+                source = source.rechunk(tuple(target.chunks))
     if not is_storage_array(target):
         target = lazy_zarr_array(
             target,
